@@ -132,6 +132,28 @@ def check_pattern(ctx, tr, rng, k, j, forced=None):
                              dict(wit, only_rglob=sorted(sra - srb)[:8], only_glob=sorted(srb - sra)[:8], equivalent=prefix + text))
             if 'NOUNIQUE' not in fn and len(set(ra)) != len(ra):
                 ctx.disagree('Path.rglob yields one path twice', dict(wit, result=ra[:20]))
+        # exclude= reaches rglob and glob alike: excluding the literal path of one result removes it (whichever way the
+        # exclusion is anchored) and adds nothing
+        dotsegs = any(R.literal_text(R.norm_seg(sg)) in ('.', '..') for sg in R.split_segments(toks)[1])
+        plain_seps = all(t[1] == '/' for t in toks if t[0] == 'sep')
+        if isinstance(ra, list) and ra and 'IGNORECASE' not in fn and not dotsegs and plain_seps and 'SCANDOTDIR' not in fn:
+            # (with written `.` / `..` segments the path glob tests is not the path pathlib shows)
+            for meth, res in (('rglob', ra), ('glob', a)):
+                if not res:
+                    continue
+                victim = res[(k + j) % len(res)]
+                rel = os.path.relpath(victim, root)
+                if rel.startswith('..') or rel == '.':
+                    continue
+                ex = G.escape(rel) + ('/' if os.path.isdir(victim) else '')
+                try:
+                    kept = [str(p) for p in getattr(P, meth)(pats, flags=flags_p, exclude=ex)]
+                except Exception as e:  # noqa: BLE001
+                    kept = f'raised {type(e).__name__}'
+                ctx.count('pathlib_exclude_checks')
+                if isinstance(kept, str) or victim in kept or not set(kept) <= set(res):
+                    ctx.disagree(f'Path.{meth}(exclude=<the literal path of one result>) still yields it, or yields something new',
+                                 dict(wit, excluded=ex, victim=rel, kept=kept if isinstance(kept, str) else [os.path.relpath(x, root) for x in kept[:12]]))
     # ---- PurePath.globmatch / full_match == glob.globmatch on the path text --------------------------
     cands = tr.candidates(3)[:30] + ['zz', 'a/zz']
     strip = ~(WP.SCANDOTDIR | WP.NOUNIQUE)
